@@ -446,7 +446,7 @@ package query
 //@   modifies * except F:query.View. E:query.Record# E:query.Cell# E:value.Primary# E:*query.SortValue# E:query.SortValues# F:query.SortValue. E:int# F:parser. F:value. F:query.ReferenceScope. F:query.Transaction. F:option.Flags. C: E:bool#
 
 // number of kept rows among the first k (counting function; its unfolding and monotonicity are stated as axioms)
-//@ spec func rankOf(s []bool, k int) int reads elems(bool)
+//@ spec func rankOf(s []bool, k int) int reads elems(s)
 //@ axiom rank_zero: forallv(s, []bool, rankOf(s, 0) == 0)
 //@ axiom rank_step: forallv(s, []bool, forall(k, 0, MaxInt64, rankOf(s, k + 1) == rankOf(s, k) + ite(s[k], 1, 0)))
 //@ axiom rank_bounds: forallv(s, []bool, forall(k, 0, MaxInt64, 0 <= rankOf(s, k) && rankOf(s, k) <= k))
@@ -615,3 +615,82 @@ package query
 //@            view.RecordSet[index][alternatives[fieldIndices[q]]], view.RecordSet[index][fieldIndices[q]]))
 //@   loop 1 modifies record[*]
 //@   modifies view.RecordSet[*]
+
+// ---------------------------------------------------------------------------------------------
+// C05: INSERT / REPLACE build the new rows from the given values, column by column
+// Field resolution (header lookup rules) is outside the verified subset: it is summarised as a function of the view
+// and the field expression, returning a valid column index on success.
+//@ spec func fieldIdx(view *View, e parser.QueryExpression) int
+//@ func (*View).FieldIndex
+//@   trusted assumed: resolves a field reference against the header; a function of the view and the expression; never writes
+//@   ensures result1 == nil ==> result0 == fieldIdx(view, fieldRef) && 0 <= result0 && result0 < len(view.Header)
+//@   modifies nothing
+
+//@ func (*View).FieldIndices
+//@   property C05
+//@   safety
+//@   requires view != nil
+//@   ensures [indices] result1 == nil ==> len(result0) == len(fields) && fresh(result0) && forall(k, 0, len(fields), result0[k] == fieldIdx(view, fields[k]) && 0 <= result0[k] && result0[k] < len(view.Header))
+//@   ensures [error-nil] result1 != nil ==> result0 == nil
+//@   loop 1 invariant 0 <= $i && $i <= len(fields) && len(indices) == len(fields) && fresh(indices) && forall(k, 0, $i, indices[k] == fieldIdx(view, fields[k]) && 0 <= indices[k] && indices[k] < len(view.Header))
+//@   loop 1 modifies indices[*]
+//@   modifies nothing
+
+//@ func (*View).convertRecordValuesToRecordSet$1
+//@   property C05
+//@   safety
+//@   ensures [first-position-or-minus-one] (result == -1 && forall(q, 0, len(list), list[q] != i)) || (0 <= result && result < len(list) && list[result] == i && forall(q, 0, result, list[q] != i))
+//@   loop 1 invariant 0 <= $i && $i <= len(list) && forall(q, 0, $i, list[q] != i)
+//@   loop 1 modifies nothing
+//@   modifies nothing
+
+//@ func (*View).convertRecordValuesToRecordSet
+//@   property C05
+//@   safety
+//@   requires view != nil && forall(r, 0, len(recordValues), len(recordValues[r]) >= len(fields))
+//@   ensures [one-record-per-row-in-order] result1 == nil ==> len(result0) == len(recordValues) && fresh(result0) && forall(r, 0, len(recordValues), len(result0[r]) == len(view.Header) && fresh(result0[r]))
+//@   ensures [given-columns] result1 == nil ==> forall(r, 0, len(recordValues), forall(k, 0, len(fields),
+//@       forall(q, 0, k, fieldIdx(view, fields[q]) != fieldIdx(view, fields[k])) ==> len(result0[r][fieldIdx(view, fields[k])]) == 1 && result0[r][fieldIdx(view, fields[k])][0] == recordValues[r][k]))
+//@   ensures [other-columns-null] result1 == nil ==> forall(r, 0, len(recordValues), forall(j, 0, len(view.Header),
+//@       forall(q, 0, len(fields), fieldIdx(view, fields[q]) != j) ==> len(result0[r][j]) == 1 && result0[r][j][0] == value.null))
+//@   loop 1 invariant 0 <= i && i <= len(view.Header) && len(recordIndices) == len(view.Header) && fresh(recordIndices) && len(fieldIndices) == len(fields) && err == nil
+//@   loop 1 invariant forall(k, 0, len(fields), fieldIndices[k] == fieldIdx(view, fields[k]) && 0 <= fieldIndices[k] && fieldIndices[k] < len(view.Header))
+//@   loop 1 invariant forall(j, 0, i, (recordIndices[j] == -1 && forall(q, 0, len(fields), fieldIndices[q] != j)) ||
+//@       (0 <= recordIndices[j] && recordIndices[j] < len(fields) && fieldIndices[recordIndices[j]] == j && forall(q, 0, recordIndices[j], fieldIndices[q] != j)))
+//@   loop 1 modifies recordIndices[*]
+//@   loop 2 invariant 0 <= $i && $i <= len(recordValues) && len(records) == len(recordValues) && fresh(records) && len(recordIndices) == len(view.Header)
+//@   loop 2 invariant forall(r, 0, $i, len(records[r]) == len(view.Header) && fresh(records[r]) && forall(j, 0, len(view.Header),
+//@       len(records[r][j]) == 1 && records[r][j][0] == ite(recordIndices[j] < 0, value.null, recordValues[r][recordIndices[j]])))
+//@   loop 2 modifies records[*]
+//@   loop 3 invariant 0 <= j && j <= len(view.Header) && len(record) == len(view.Header) && fresh(record) && i == rangeindex && 0 <= i && i < len(recordValues) && values == recordValues[i]
+//@   loop 3 invariant forall(q, 0, j, len(record[q]) == 1 && record[q][0] == ite(recordIndices[q] < 0, value.null, values[recordIndices[q]]))
+//@   loop 3 modifies record[*]
+//@   modifies nothing
+
+//@ func (*View).insert
+//@   property C05
+//@   safety
+//@   requires view != nil && forall(r, 0, len(recordValues), len(recordValues[r]) >= len(fields))
+//@   ensures [error-changes-nothing] result1 != nil ==> view.RecordSet == old(view.RecordSet) && result0 == 0
+//@   ensures [count-is-rows-given] result1 == nil ==> result0 == len(recordValues) && len(view.RecordSet) == old(len(view.RecordSet)) + len(recordValues)
+//@   ensures [old-rows-kept-in-place] result1 == nil ==> forall(k, 0, old(len(view.RecordSet)), view.RecordSet[k] == old(view.RecordSet[k]))
+//@   ensures [new-rows-appended-in-order] result1 == nil ==> forall(r, 0, len(recordValues), len(view.RecordSet[old(len(view.RecordSet)) + r]) == len(view.Header) &&
+//@       forall(k, 0, len(fields), forall(q, 0, k, fieldIdx(view, fields[q]) != fieldIdx(view, fields[k])) ==>
+//@           view.RecordSet[old(len(view.RecordSet)) + r][fieldIdx(view, fields[k])][0] == recordValues[r][k]))
+//@   modifies view.RecordSet
+
+// membership of a value among the first n elements of an int slice (unfolding stated as axioms)
+//@ spec func inPrefix(s []int, n int, v int) bool reads elems(s)
+//@ axiom inprefix_zero: forallv(s, []int, forallv(v, int, !inPrefix(s, 0, v)))
+//@ axiom inprefix_step: forallv(s, []int, forallv(v, int, forall(n, 0, MaxInt64, inPrefix(s, n + 1, v) == (inPrefix(s, n, v) || s[n] == v))))
+
+// REPLACE: which columns are rewritten on a key match (all given columns that are not key columns), the order in
+// which unmatched rows are appended, and the reported count. The three worker closures run under Run (assumed).
+//@ func (*View).replace
+//@   property C05 C12
+//@   requires view != nil && flags != nil && forall(r, 0, len(recordValues), len(recordValues[r]) >= len(fields))
+//@   assert after call (*query.View).convertRecordValuesToRecordSet#1: [update-columns-are-the-given-non-key-columns] forall(q, 0, len(updateIndices),
+//@       inPrefix(fieldIndices, len(fieldIndices), updateIndices[q]) && !has(keyIndicesMap, uint(updateIndices[q])))
+//@   loop 4 invariant 0 <= $i && $i <= len(fieldIndices) && keyIndicesMap != nil && base(updateIndices) != base(fieldIndices)
+//@   loop 4 invariant forall(q, 0, len(updateIndices), inPrefix(fieldIndices, $i, updateIndices[q]) && !has(keyIndicesMap, uint(updateIndices[q])))
+//@   modifies *
